@@ -142,8 +142,11 @@ TRUSTED = core.COMMON_TRUSTED + [
     "sub-triangulations (ReportExact, TriGeom, SubGeom, SubIdxGeom: exact (deleted, added) reports, vertex indices in range, "
     "added simplices contain the new vertex, a fresh sub-triangulation loses its root simplex — C03's theorems) and "
     "ChooseGeom (chosen point in the domain and accepted by point_in_simplex for its simplex / the owning simplex; inserting it "
-    "removes the sub-simplex; tri.simplices duplicate-free); the former ghost flag geomOK is proved true under these "
-    "(lnd_ghost_true) and still counted in the evidence as an empirical test of them",
+    "removes the sub-simplex; tri.simplices duplicate-free) and AskNew (the point _ask_best_point chooses has no value yet: since "
+    "the repair f204e85 tell_pending ignores evaluated points, so a chosen evaluated point would silently drop its simplex from the "
+    "queue - kernel-checked counterexample lnd_queue_complete_needs_askNew; AskNew follows from ChooseLocal + DataBound, "
+    "lnd_askNew_of_bound); the former ghost flag geomOK is proved true under these (lnd_ghost_true) and still counted in the "
+    "evidence as an empirical test of them",
     "harness/lnd_drive.py monkeypatch recorder; python round(x, 8) reproduced exactly from the bit pattern "
     "(Drv/LND.lean rnd8); sortedcontainers.SortedKeyList ordering (bisect_right insertion)",
     "IEEE rounding is outside the theorems (ordered fields)",
